@@ -46,13 +46,25 @@ PROP = {'gen': [],
  'corr_check': 'SNT.Corr.C02Corr.c02_check (models Decoder/Payload.v + Decoder/Events.v over Gen/ProdDFA.v vs TTYEventDecoder / '
                'TTYCommandDecoder / Utf8Decoder run in a child process)',
  'level_text': 'Coq theorems over an executable model of the three public decoders (generic tokeniser of C03 instantiated at the '
-               'automata regenerated from the source, one checked Gallina function per Matcher::decode body): for every byte string and '
-               'every partition into reads no payload decoder panics on any string the automaton accepts (three shape certificates - '
-               'lengths, XTWINOPS pieces, XTGETTCAP hex fields - checked by reflection on the regenerated tables), the loops terminate, an '
-               'exhausted decoder returns None (also stated for the run in which a panicking payload decoder aborts at the byte where it is '
-               'called), Utf8Decoder never overruns its buffer and is chunking independent; sgr_face / sgr_color modelled in full; characters are scalar '
-               'values, numeric fields are the unbounded decimal values of their digits clamped to usize::MAX (minus one where one-based; a zero there makes the sequence unrecognised), raw events are '
-               'non-empty and spans reassemble the input in order.',
+               'automata regenerated from the source, one checked Gallina function per Matcher::decode body, sgr_face / sgr_color in '
+               'full). Counted obligations: C02_total_event/_command, C02_run_no_panic_event/_command (the run in which a panicking '
+               'payload decoder aborts at the byte where it is called, also for candidates later replaced), C02_payload_no_panic '
+               '(_command), C02_utf8_decoder, C02_utf8_decoder_chunking, C02_chars_scalar, C02_numbers, C02_parameter_values, '
+               'C02_cursor_position, C02_numeric_fields, C02_modified_keys, C02_mouse_protocol, C02_mouse_unnamed, C02_spans_in_order(_command); '
+               'for every '
+               'byte string and every partition into reads: no payload decoder panics on any string the automaton accepts (three '
+               'shape certificates - lengths, XTWINOPS pieces, XTGETTCAP hex fields - and the palette table sizes, checked by '
+               'reflection on the regenerated tables), the loops terminate, an exhausted decoder returns None, Utf8Decoder never '
+               'overruns its buffer and is chunking independent; characters are scalar values; numeric fields are the unbounded decimal '
+               'values of their digits clamped to usize::MAX (minus one where one-based; a zero there makes the sequence '
+               'unrecognised); raw events are non-empty and spans reassemble the input in order. Spec decisions: (1) bit SETS are not '
+               'numeric fields: kitty keyboard modifiers are the nine known bits of (m - 1) (KeyMod::from_bits masks by design) and an '
+               'SGR mouse button code is read as a bit field - bits 0-1 button, 2-4 modifiers, 6 wheel, 7 = unnamed -> unrecognised, bits '
+               'above 7 ignored (`ESC[<256;1;1M` is MouseLeft); (2) an SGR true-colour channel above 255 makes the colour '
+               'unrecognised (the predicate also accepts the clamp to 255, never a wrapped value); (3) overlong UTF-8 forms decode to '
+               'the scalar value their shape denotes; (4) DecMode / DecModeStatus / OSC ids are compared as whole numbers. Lemmas '
+               '(not counted): C02_calls_accepted(_command), C02_tables, C02_utf8_decoder_exhausted (definitional), '
+               'C02_old_code_refuted (the pre-fix bodies).',
  'level_note': 'Trusted: Coq kernel + vm_compute; hand-written payload models validated by the correspondence run; DFA dump hook + '
                'translate/dfa.py (automata, matcher order, DecMode lists, palette tables); RGBA::from_str, String::from_utf8_lossy, '
                'FaceModify::apply / FaceAttrs of a DECRPSS reply treated as total opaque functions. '
